@@ -23,9 +23,11 @@ PROOFS = ["PQ/Lemmas/SrcEquivBase.lean", "PQ/Lemmas/SrcEquiv.lean", "PQ/Lemmas/S
           "PQ/Lemmas/SrcEquivPush.lean", "PQ/Lemmas/SrcEquivOps2.lean", "PQ/Lemmas/SrcEquivBulk.lean",
           "PQ/Lemmas/SrcEquivBulkQ.lean", "PQ/Lemmas/SrcEquivExtend.lean", "PQ/Lemmas/SrcEquivIter.lean", "PQ/Lemmas/SrcEquivPanic.lean",
           "PQ/Lemmas/SrcEquivPanic2.lean", "PQ/Lemmas/SrcEquivPanicPQ.lean", "PQ/Lemmas/SrcEquivPanicDQ.lean",
-          "PQ/Lemmas/SrcEquivPanicBulk.lean", "PQ/Lemmas/SrcEquivPanicExtend.lean"]
+          "PQ/Lemmas/SrcEquivPanicBulk.lean", "PQ/Lemmas/SrcEquivPanicExtend.lean",
+          "PQ/Lemmas/SrcEquivSmall.lean", "PQ/Lemmas/SrcEquivCap.lean"]
 
 ST, PQ, DQ = "src/store.rs", "src/priority_queue/mod.rs", "src/double_priority_queue/mod.rs"
+PQI, DQI, CI = "src/priority_queue/iterators.rs", "src/double_priority_queue/iterators.rs", "src/core_iterators.rs"
 # (name, file, old text, new text, which occurrence (0-based), kind)   kind: "mutant" | "neutral"
 EDITS = [
     ("pq_heapify_flip_cmp", PQ, "if childp > largestp {", "if childp < largestp {", 0, "mutant"),
@@ -180,6 +182,45 @@ EDITS = [
      "                (true, false) => {\n                    unsafe { hole.move_from(parent, parent_index) };\n                    Self::bubble_up_min(map, &mut hole, priority)\n                }", 0, "mutant"),
     ("hole_drop_reversed_writes", ST, "            *self.heap.get_unchecked_mut(self.position.0) = self.map_position;\n            *self.qp.get_unchecked_mut(self.map_position.0) = self.position;",
      "            *self.qp.get_unchecked_mut(self.map_position.0) = self.position;\n            *self.heap.get_unchecked_mut(self.position.0) = self.map_position;", 0, "mutant"),
+    # ---- phase 6: iterators, small functions, capacity forwards
+    ("p6_pq_itermut_next_pos_by_two", PQI, "self.pos += 1;", "self.pos += 2;", 0, "mutant"),
+    ("p6_pq_itermut_new_start", PQI, "IterMut { pq, pos: 0 }", "IterMut { pq, pos: 1 }", 0, "mutant"),
+    ("p6_pq_itermut_drop_nothing", PQI, "self.pq.heap_build();", "", 0, "mutant"),
+    ("p6_pq_itermut_adds_size_hint", PQI, "        self.pos += 1;\n        r\n    }",
+     "        self.pos += 1;\n        r\n    }\n    fn size_hint(&self) -> (usize, Option<usize>) { (0, Some(0)) }", 0, "mutant"),
+    ("p6_pq_itermut_yields_other_slot", PQI, ".get_index_mut2(self.pos)", ".get_index_mut2(self.pos + 1)", 0, "mutant"),
+    ("p6_pq_sorted_next", PQI, "self.pq.pop()", "self.pq.peek().map(|_| unreachable!())", 0, "mutant"),
+    ("p6_dq_itermut_next_guard", DQI, "if self.pos >= self.back {", "if self.pos > self.back {", 0, "mutant"),
+    ("p6_dq_itermut_next_back_no_dec", DQI, "        self.back -= 1;\n", "", 0, "mutant"),
+    ("p6_dq_itermut_next_back_yields_pos", DQI, ".get_index_mut2(self.back)", ".get_index_mut2(self.pos)", 0, "mutant"),
+    ("p6_dq_itermut_len_swapped", DQI, "self.back - self.pos", "self.pos - self.back", 1, "mutant"),
+    ("p6_dq_itermut_size_hint_swapped", DQI, "self.back - self.pos", "self.pos - self.back", 0, "mutant"),
+    ("p6_dq_itermut_new_back", DQI, "IterMut { pq, pos: 0, back }", "IterMut { pq, pos: 1, back }", 0, "mutant"),
+    ("p6_dq_itermut_drop_nothing", DQI, "self.pq.heap_build();", "", 0, "mutant"),
+    ("p6_dq_sorted_next_pops_max", DQI, "self.pq.pop_min()", "self.pq.pop_max()", 0, "mutant"),
+    ("p6_dq_sorted_next_back_pops_min", DQI, "self.pq.pop_max()", "self.pq.pop_min()", 0, "mutant"),
+    ("p6_dq_sorted_len", DQI, "        self.pq.len()\n", "        self.pq.len() + 1\n", 0, "mutant"),
+    ("p6_core_drain_next_forwards_back", CI, "self.iter.next()", "self.iter.next_back()", 0, "mutant"),
+    ("p6_core_iter_size_hint_forwards_len", CI, "self.iter.size_hint()", "(self.iter.len(), None)", 1, "mutant"),
+    ("p6_core_intoiter_next_back_forwards_next", CI, "self.iter.next_back()", "self.iter.next()", 2, "mutant"),
+    ("p6_core_iter_len_forwards_wrong", CI, "self.iter.len()", "self.iter.size_hint().0", 1, "mutant"),
+    ("p6_store_into_vec_other", ST, "self.map.into_iter().map(|(i, _)| i).collect()", "self.map.into_iter().rev().map(|(i, _)| i).collect()", 0, "mutant"),
+    ("p6_pq_into_vec_sorted", PQ, "        self.store.into_vec()", "        self.into_sorted_vec()", 0, "mutant"),
+    ("p6_dq_into_asc_pops_max", DQ, "while let Some((i, _)) = self.pop_min() {", "while let Some((i, _)) = self.pop_max() {", 0, "mutant"),
+    ("p6_dq_into_desc_pops_min", DQ, "while let Some((i, _)) = self.pop_max() {", "while let Some((i, _)) = self.pop_min() {", 0, "mutant"),
+    ("p6_pq_into_sorted_vec_drops", PQ, "            res.push(i);\n", "", 0, "mutant"),
+    ("p6_store_eq_heap", ST, "self.map == other.map", "self.heap == other.heap", 0, "mutant"),
+    ("p6_store_serialize_len", ST, "serializer.serialize_seq(Some(self.size))?", "serializer.serialize_seq(Some(self.map.len()))?", 0, "mutant"),
+    ("p6_store_serialize_skips", ST, "                map_serializer.serialize_element(&(k, v))?;\n", "", 0, "mutant"),
+    ("p6_cap_try_reserve_order", ST, "        self.map.try_reserve(additional)?;\n        self.heap.try_reserve(additional)?;",
+     "        self.heap.try_reserve(additional)?;\n        self.map.try_reserve(additional)?;", 0, "mutant"),
+    ("p6_cap_try_reserve_missing_q", ST, "        self.qp.try_reserve(additional)?;", "        self.qp.try_reserve(additional);", 0, "mutant"),
+    ("p6_cap_reserve_exact_calls_reserve", ST, "self.heap.reserve_exact(additional);", "self.heap.reserve(additional);", 0, "mutant"),
+    ("p6_cap_reserve_skips_qp", ST, "        self.qp.reserve(additional);\n", "", 0, "mutant"),
+    ("p6_cap_capacity_heap", ST, "self.map.capacity()", "self.heap.capacity()", 0, "mutant"),
+    ("p6_cap_shrink_skips_map", ST, "        self.map.shrink_to_fit();\n", "", 0, "mutant"),
+    ("p6_comment_in_iterators", DQI, "        self.back -= 1;", "        self.back -= 1; // step back", 0, "neutral"),
+    ("p6_whitespace_core", CI, "self.iter.next_back()", "self . iter .\n next_back ( )", 1, "neutral"),
     ("dq_comment_only", DQ, "fn heapify_min(&mut self, mut i: Position) {",
      "fn heapify_min(&mut self, mut i: Position) {\n        // trickle down on a min level", 0, "neutral"),
     ("comment_only", PQ, "fn heapify(&mut self, mut i: Position) {",
